@@ -37,6 +37,7 @@ Definition fin_matches (b : bytes) (f : fin) : bool :=
 Record case := {
   limit : N;                         (* filer -dirListLimit *)
   inline : N;                        (* filer -saveToFilerLimit *)
+  chunk : N;                         (* chunk size in bytes of the filer's HTTP write path *)
   ops : list op;
   impl : list res;                   (* one per op *)
   final : list (path * fin);         (* file entries under the bucket, outside .uploads *)
@@ -45,7 +46,7 @@ Record case := {
 
 (* [limit] (the filer's -dirListLimit the case ran with) is not an input of the model any more:
    completeMultipartUpload lists with an explicit limit *)
-Definition the_cfg (c : case) : cfg := {| c_inline := inline c; c_chunk := 1048576 |}.
+Definition the_cfg (c : case) : cfg := {| c_inline := inline c; c_chunk := chunk c |}.
 
 Definition fin_subset (a : list (path * bytes)) (b : list (path * fin)) : bool :=
   forallb (fun kv => match sfind b (fst kv) with Some f => fin_matches (snd kv) f | None => false end) a.
